@@ -7,7 +7,8 @@ from ..encoding import Instruction, Operand, Syntax, Transform
 from ..encoding import Relocation
 from ..generic_instructions import ArtificialInstruction, RegisterUseDef
 from ..generic_instructions import Global
-from .registers import AddressRegister, FloatRegister, a1, a2, a3, a15
+from .registers import AddressRegister, FloatRegister, BooleanRegister
+from .registers import a1, a2, a3, a15
 from ...utils.bitfun import wrap_negative
 
 
@@ -297,9 +298,9 @@ class Andb(XtensaBooleanInstruction):
     """Boolean and"""
 
     tokens = [RrrToken]
-    r = Operand("r", AddressRegister, write=True)
-    s = Operand("s", AddressRegister, read=True)
-    t = Operand("t", AddressRegister, read=True)
+    r = Operand("r", BooleanRegister, write=True)
+    s = Operand("s", BooleanRegister, read=True)
+    t = Operand("t", BooleanRegister, read=True)
     patterns = {"op2": 0, "op1": 2, "r": r, "s": s, "t": t, "op0": 0}
     syntax = Syntax(["andb", " ", r, ",", " ", s, ",", " ", t])
 
@@ -308,9 +309,9 @@ class Andbc(XtensaBooleanInstruction):
     """Boolean and with complement"""
 
     tokens = [RrrToken]
-    r = Operand("r", AddressRegister, write=True)
-    s = Operand("s", AddressRegister, read=True)
-    t = Operand("t", AddressRegister, read=True)
+    r = Operand("r", BooleanRegister, write=True)
+    s = Operand("s", BooleanRegister, read=True)
+    t = Operand("t", BooleanRegister, read=True)
     patterns = {"op2": 1, "op1": 2, "r": r, "s": s, "t": t, "op0": 0}
     syntax = Syntax(["andbc", " ", r, ",", " ", s, ",", " ", t])
 
